@@ -109,6 +109,13 @@ class Handlers(UserDict):
         #   replaced.
         self._resolve.cache_clear()  # type: ignore[attr-defined]
 
+    def __ior__(self, other: Any) -> Handlers:  # type: ignore[override,misc]
+        # NOTE: UserDict.__ior__() updates self.data directly, bypassing
+        #   __setitem__(), so the resolver cache must be cleared here as well.
+        result = super().__ior__(other)
+        self._resolve.cache_clear()  # type: ignore[attr-defined]
+        return result
+
     def __delitem__(self, key: str) -> None:
         super().__delitem__(key)
 
